@@ -27,6 +27,7 @@ struct Scenario {
     int (*quiescent_ok)() = nullptr;  // may a "no runnable thread" state be legal?
     bool spurious_pass = false;       // additionally explore with one injected spurious wake-up
     int horizon = 50000;
+    bool delay = false;  // delay-bounded instead of preemption-bounded: option j at any scheduling point costs j
     bool whole = false;  // small scenario: explored entirely by one shard (scenario index % nshards)
 };
 
@@ -167,6 +168,7 @@ inline ExecResult run_one(const Scenario& sc, const std::vector<unsigned char>& 
     sh->horizon = sc.horizon;
     sh->spurious_at = spurious_at;
     sh->user[0] = (int)(&sc - scenario_table()->data());
+    sh->user[1] = sc.delay ? 1 : 0;
     if (prefix.size() > VS_MAXPREFIX) {
         vh::out_line("ERROR prefix too long");
         exit(2);
@@ -338,22 +340,23 @@ struct Explorer {
                 }
             }
             // children
+            auto cost_of = [&](const vs_point& p, int choice) -> int {
+                if (choice == 0 || p.altcost == 0) return 0;
+                return sc.delay ? p.altcost * choice : p.altcost;
+            };
             int cost = 0;
-            for (int i = 0; i < (int)nd.prefix.size() && i < r.npoints; ++i)
-                if (r.points[i].chosen) cost += r.points[i].altcost;
+            for (int i = 0; i < (int)nd.prefix.size() && i < r.npoints; ++i) cost += cost_of(r.points[i], r.points[i].chosen);
             std::vector<Node> kids;
             for (int i = (int)nd.prefix.size(); i < r.npoints; ++i) {
                 const vs_point& p = r.points[i];
-                if (cost + p.altcost <= bound) {
-                    for (int alt = 1; alt < p.nopt; ++alt) {
-                        Node k;
-                        k.prefix.assign(taken.begin(), taken.begin() + i);
-                        k.prefix.push_back((unsigned char)alt);
-                        k.depth = nd.depth + 1;
-                        kids.push_back(std::move(k));
-                    }
+                for (int alt = 1; alt < p.nopt; ++alt) {
+                    if (cost + cost_of(p, alt) > bound) break;
+                    Node k;
+                    k.prefix.assign(taken.begin(), taken.begin() + i);
+                    k.prefix.push_back((unsigned char)alt);
+                    k.depth = nd.depth + 1;
+                    kids.push_back(std::move(k));
                 }
-                if (p.chosen) cost += p.altcost;  // (always 0 beyond the prefix)
             }
             for (size_t i = kids.size(); i-- > 0;) stack.push_back(std::move(kids[i]));
         }
